@@ -156,6 +156,8 @@ class Interp:
         self.label_atoms = {}
         self.tuple_arity = {}
         self.summaries = {}
+        self.exact_minmax = False
+        self._forks = []
         self.containers = set()
         self.container_arity = {}
         self.attr_writes = set()
@@ -193,6 +195,12 @@ class Interp:
         return tuple(key)
 
     def normalize(self, states):
+        if self.exact_minmax:
+            outs = [s for s in states if s is not None and not s.bottom]
+            if len(outs) > 256:
+                raise Unsupported("too many exact partitions")
+            self.max_parts = max(self.max_parts, len(outs))
+            return outs
         groups = {}
         order = []
         for s in states:
@@ -454,6 +462,17 @@ class Interp:
             if f.id in ("min", "max") and len(node.args) == 2 and not node.keywords:
                 a, b = self.ev(node.args[0], st), self.ev(node.args[1], st)
                 r = self.opaque(node, st)
+                if isinstance(a, Lin) and isinstance(b, Lin) and self.exact_minmax:
+                    # exact: r is one of the operands (case split applied after the statement, so the
+                    # operands are first bound to atoms that keep their value if a variable is re-assigned)
+                    aa, bb = self.opaque(node, st, "a."), self.opaque(node, st, "b.")
+                    st.add_eq(aa - a)
+                    st.add_eq(bb - b)
+                    a, b = aa, bb
+                    if f.id == "min":
+                        self._forks.append([([r - a], [b - a]), ([r - b], [a - b])])
+                    else:
+                        self._forks.append([([r - a], [a - b]), ([r - b], [b - a])])
                 if isinstance(a, Lin) and isinstance(b, Lin):
                     for x in (a, b):
                         st.add_ineq((x - r) if f.id == "min" else (r - x))
@@ -864,10 +883,27 @@ class Interp:
             return self.loop(s, states)
         outs, brk, cont = [], [], []
         for st in states:
+            self._forks = []
             o, b, c = self.simple(s, st)
+            if self._forks:
+                for alts in self._forks:
+                    nxt = []
+                    for x in o:
+                        for eqs, ineqs in alts:
+                            y = x.copy()
+                            for q in eqs:
+                                y.add_eq(q)
+                            for q in ineqs:
+                                y.add_ineq(q)
+                            if not y.bottom and not y.infeasible():
+                                nxt.append(y)
+                    o = nxt
+                self._forks = []
             outs += o
             brk += b
             cont += c
+        if self.exact_minmax:
+            return [x for x in outs if not x.bottom], brk, cont
         return self.normalize(outs), brk, cont
 
     def do_if(self, s, states):
@@ -961,6 +997,13 @@ class Interp:
                 if isinstance(e, ast.Name):
                     name = e.id
                 self.outcomes.append(Outcome("raise", name, st, s))
+            return [], [], []
+        if isinstance(s, ast.Return) and self.exact_minmax and self.record and \
+                isinstance(s.value, (ast.Compare, ast.BoolOp)):
+            # exact evaluation of a boolean result: one outcome per truth value that is feasible
+            for truth_, tok in ((True, TRUE), (False, FALSE)):
+                for st2 in self.assume(s.value, st, truth_):
+                    self.outcomes.append(Outcome("return", tok, st2, s))
             return [], [], []
         if isinstance(s, ast.Return):
             v = self.ev(s.value, st) if s.value is not None else NONE
